@@ -181,4 +181,12 @@ CHECKS = {
                      "streaming methods and methods that dial out get a 250 ms context; requests that would need an external server are exercised up to the dial",
                      "service states to depth 2 (quick) / 3 over {deactivate/activate account group, create/deactivate a multi-member group, add a contact / deactivate its group}"],
     ),
+    "C20": dict(
+        harness="root", run="TestVerifC20", level="model_checking",
+        technique="explicit-state exploration of real services: every operation history up to a depth, export at every state, restore into a fresh datastore + fresh mock node and comparison of identity, logs, heads and derived state; plus an exhaustive mutation catalogue on representative archives",
+        rule="states = histories over {contact request, block, join+activate a group, message in account group, message / metadata in the group, deactivate the group}; transitions = export+restore runs; valid archives are compared member by member with the DAG and with the restored node; mutations: each member dropped / duplicated, byte flips (every byte of the key files; first/middle/last byte of entries and heads in quick, every byte in thorough), adjacent swaps and full reversal, entry renamed / contents swapped, key files swapped, restore onto a store with an account; classes = (mutation kind, outcome)",
+        assumptions=["only the rejection cases the property lists (entry bytes not matching their identifier, missing or duplicated key file, existing account) are judged; the outcome of other corruptions (heads, order) is recorded, not judged",
+                     "a restore that waits for entries missing from the archive is ended after 4 s by cancelling the database context and counted as a rejection",
+                     "logs of the restored node are read by opening the groups without activation (activation appends the new device's own entries)"],
+    ),
 }
